@@ -9,7 +9,8 @@ use cw_multi_test::{
     App, AppBuilder, BankKeeper, Contract, ContractWrapper, DistributionKeeper, Executor,
     FailingModule, GovFailingModule, IbcFailingModule, MockApiBech32, StakeKeeper, WasmKeeper,
 };
-use mantra_common_testing::multi_test::stargate_mock::StargateMock;
+mod tfmock;
+use tfmock::TfMock;
 use serde_json::{json, Value};
 
 mod prim;
@@ -24,7 +25,7 @@ type TfApp = App<
     DistributionKeeper,
     IbcFailingModule,
     GovFailingModule,
-    StargateMock,
+    TfMock,
 >;
 
 fn c_pool() -> Box<dyn Contract<Empty>> {
@@ -153,7 +154,7 @@ fn run(sc: &Value) -> Value {
         .with_api(api)
         .with_wasm(WasmKeeper::default())
         .with_bank(BankKeeper::new())
-        .with_stargate(StargateMock::new(tf_fees))
+        .with_stargate(TfMock::new(tf_fees))
         .build(|router, _api, storage| {
             for (a, c) in init2 {
                 if !c.is_empty() {
